@@ -10,7 +10,8 @@ LEVEL_NOTE = ('the oracle is the DOM of the undamaged text (damage) and the abst
               '"not a valid construct" is decided by the CSS 2.1 core grammar of a declaration and the Selectors 3 grammar over token kinds, never by cssutils; an unknown or misplaced at-rule may stay in the DOM as ONE '
               'CSSUnknownRule at its place; garbage tokens are separated by one space (glued forms only in the hand-picked set); one damaged construct per sheet; blind to garbage longer than the bound and to host '
               'shapes outside the generator grammar')
-TECHNIQUE = 'bounded run-time contracts on the real parser over exhaustively enumerated (sheet, boundary, balanced garbage) triples and all prefixes (no proof obligations; the bounds are stated in the evidence)'
+TECHNIQUE = ('VC generation + z3 on the real Base._tokensupto2 (loop invariant over ghost nesting levels: the skip consumes exactly up to the first end token at nesting level zero, for every stream, mode and start token; 26 targets); '
+             'the statement as a whole is decided by bounded run-time contracts on the real parser over exhaustively enumerated (sheet, boundary, balanced garbage) triples and all prefixes (bounds in the evidence)')
 DESIGN_REF = 'DESIGN.md section 3, C04; Appendix C "Token-snippet alphabet", "Abstract sheets"; section 4 defect table (C04 row)'
 
 
@@ -23,3 +24,9 @@ def bounded(ctx):
     c04.damaged_sheets(ctx)
     c04.truncation(ctx)
     c04.witnesses(ctx)
+
+
+# T1 (PyVC): Base._tokensupto2 - for every token stream, every mode flag, with and without a start token, the call consumes exactly up to and
+# including the first token at which all nesting levels are zero and the token is an end token of the mode (or EOF / end of the stream); the
+# result is the start token plus exactly the consumed tokens.  26 targets, ~56 000 obligations, under a minute.
+T1 = [('contracts.util_tokensupto2', None)]
